@@ -164,18 +164,74 @@ pub proof fn lemma_cnt_multiset(a: Seq<Rec>, b: Seq<Rec>, c: Seq<u8>)
     }
 }
 
-/// D18 as a theorem: when a commit is present on both sides (each side without
-/// duplicates), ANY permutation of `l ++ r` — in particular the stable time sort
-/// `merge_patches` returns in the non-subset case — holds it twice, so
-/// [merge_is_union] cannot hold there.
-pub proof fn lemma_D18_duplicate(m: Seq<Rec>, l: Seq<Rec>, r: Seq<Rec>, c: Seq<u8>)
-    requires no_dup(l), no_dup(r), has_commit(l, c), has_commit(r, c), m.to_multiset() == (l + r).to_multiset(),
-    ensures cnt(m, c) == 2, !is_commit_union(m, l, r),
+/// std meaning of `$b.into_iter().filter(|r| !$set.contains(r.commit()))`: the rows of
+/// `s` whose commit is NOT in `cs`, in order
+pub open spec fn drop_commits(s: Seq<Rec>, cs: ISet<Seq<u8>>) -> Seq<Rec>
+    decreases s.len(),
 {
-    lemma_cnt_multiset(m, l + r, c);
-    lemma_cnt_concat(l, r, c);
-    lemma_cnt_no_dup(l, c);
-    lemma_cnt_no_dup(r, c);
+    if s.len() == 0 { Seq::empty() } else {
+        let p = drop_commits(s.drop_last(), cs);
+        if cs.contains(s.last().commit) { p } else { p.push(s.last()) }
+    }
+}
+/// filtering removes exactly the rows with a commit in `cs`
+pub proof fn lemma_drop_commits_cnt(s: Seq<Rec>, cs: ISet<Seq<u8>>, c: Seq<u8>)
+    ensures cnt(drop_commits(s, cs), c) == (if cs.contains(c) { 0nat } else { cnt(s, c) }),
+    decreases s.len(),
+{
+    if s.len() > 0 {
+        lemma_drop_commits_cnt(s.drop_last(), cs, c);
+        let p = drop_commits(s.drop_last(), cs);
+        if !cs.contains(s.last().commit) {
+            assert(p.push(s.last()).drop_last() =~= p);
+            assert(p.push(s.last()).last() == s.last());
+        }
+    }
+}
+/// filtering adds nothing
+pub proof fn lemma_drop_commits_sub(s: Seq<Rec>, cs: ISet<Seq<u8>>)
+    ensures drop_commits(s, cs).to_multiset().subset_of(s.to_multiset()),
+    decreases s.len(),
+{
+    broadcast use vstd::seq_lib::group_to_multiset_ensures;
+    if s.len() > 0 {
+        let d = s.drop_last();
+        lemma_drop_commits_sub(d, cs);
+        let p = drop_commits(d, cs);
+        assert(s =~= d.push(s.last()));
+        assert(d.push(s.last()).to_multiset() =~= d.to_multiset().insert(s.last()));
+        if !cs.contains(s.last().commit) {
+            assert(p.push(s.last()).to_multiset() =~= p.to_multiset().insert(s.last()));
+        }
+    }
+}
+/// multiplicities in `l ++ (rows of r whose commit is not in l)`: rows of `l` as
+/// they are (duplicates inside `l` stay), rows of `r` only for commits `l` lacks
+/// (duplicates inside `r` stay for those)
+pub open spec fn merged_cnt(l: Seq<Rec>, r: Seq<Rec>, c: Seq<u8>) -> nat {
+    cnt(l, c) + (if has_commit(l, c) { 0nat } else { cnt(r, c) })
+}
+pub proof fn lemma_merged_cnt(m: Seq<Rec>, l: Seq<Rec>, r: Seq<Rec>, c: Seq<u8>)
+    requires m.to_multiset() == (l + drop_commits(r, commit_set(l))).to_multiset(),
+    ensures cnt(m, c) == merged_cnt(l, r, c),
+{
+    let fr = drop_commits(r, commit_set(l));
+    lemma_cnt_multiset(m, l + fr, c);
+    lemma_cnt_concat(l, fr, c);
+    lemma_drop_commits_cnt(r, commit_set(l), c);
+    assert(commit_set(l).contains(c) == has_commit(l, c));
+}
+/// with no duplicates inside either side the merged rows hold every commit of
+/// either side exactly once (byte-identical events made independently count once)
+pub proof fn lemma_merged_union(m: Seq<Rec>, l: Seq<Rec>, r: Seq<Rec>)
+    requires no_dup(l), no_dup(r), m.to_multiset() == (l + drop_commits(r, commit_set(l))).to_multiset(),
+    ensures is_commit_union(m, l, r),
+{
+    assert forall|c: Seq<u8>| #[trigger] cnt(m, c) == (if has_commit(l, c) || has_commit(r, c) { 1nat } else { 0nat }) by {
+        lemma_merged_cnt(m, l, r, c);
+        lemma_cnt_no_dup(l, c);
+        lemma_cnt_no_dup(r, c);
+    }
 }
 
 /// the row vector of a concatenation
